@@ -5,10 +5,11 @@
    io.Writer.Write calls (see [mout]); C18 injects a failing Write into that structure.
 
    Things that are deliberately NOT totalised away (each is exercised by the correspondence check):
-   * writePacket's second size test runs after sync byte, header and adaptation field have been
-     handed to the writer; when it fires the call fails with those bytes already out
-     ([enc_packet_emitted_on_error]);
-   * calcPacketAdaptationFieldLength is uint8 arithmetic (Gen/Preds.v) while the bytes written are not;
+   * WriteData sizes its first packet with calcPacketAdaptationFieldLength, which is uint8 arithmetic
+     (Gen/Preds.v), while writePacket checks the real size (packetAdaptationFieldSize);
+   * writePacket's second size test (after sync byte, header and adaptation field have been handed to
+     the writer) is kept in Model/Packet.v; MuxerProofs.v shows it can no longer fire, so a failing
+     writePacket emits nothing;
    * the continuity counter of a stream starts at wrapAt+1 = 16 and is truncated to 4 bits by the writer;
    * nextPID is a uint16 and wraps.
 
@@ -111,8 +112,7 @@ Inductive mop : Type :=
    mo_groups: what the call hands to the io.Writer when no Write fails, as a list of groups; a group
               is the list of consecutive Write calls the call accounts for together (one TS packet
               written through the BitsWriter, or one table packet written from its buffer).
-              When the call fails after a partial emission (see the header comment) the partial
-              group is the last one and is not counted in mo_n. *)
+              A writePacket that fails has written nothing (see the header comment). *)
 Record mout := mk_mout { mo_res : res unit; mo_n : Z; mo_groups : list (list (list Z)) }.
 
 Definition mout_bytes (o : mout) : list Z := concat (concat (mo_groups o)).
@@ -177,40 +177,15 @@ Definition remove_es (s : mstate) (pid : Z) : mstate * res unit :=
 
 (* ---------------- writePacket as the Muxer uses it ---------------- *)
 
-(* The items writePacket has handed to the BitsWriter when it returns an error: none when the first
-   size test fails; sync byte, header and adaptation field when the second one does. *)
-Definition enc_packet_emitted_on_error (p : Packet) (target : Z) : list witem :=
-  let h := Packet_Header p in
-  let plen := blen (Packet_Payload p) in
-  if PacketHeader_HasAdaptationField h then
-    match Packet_AdaptationField p with
-    | None => []
-    | Some af =>
-        let available := target - 1 - C_mpegTsPacketHeaderSize -
-                         (if PacketAdaptationField_IsOneByteStuffing af then 1
-                          else 1 + calcPacketAdaptationFieldLength af) in
-        if available <? plen then [] else
-        match enc_adaptation_field af with
-        | Ok (afi, afn) =>
-            if target - (1 + C_mpegTsPacketHeaderSize + afn) <? plen
-            then [wu8 syncByte] ++ enc_packet_header h ++ afi else []
-        | _ => []
-        end
-    end
-  else [].
-
 (* one writePacket call on the Muxer's BitsWriter: result (n), the Write calls it made, the packet when it is complete *)
 Record pkt_out := mk_pkt_out { po_res : res Z; po_group : list (list Z); po_pkt : list Packet }.
 
 Definition emit_packet (p : Packet) : pkt_out :=
   match enc_packet p C_MpegTsPacketSize with
   | Ok items => {| po_res := Ok C_MpegTsPacketSize; po_group := chunks_of items; po_pkt := [p] |}
-  | Err c => {| po_res := Err c; po_group := chunks_of (enc_packet_emitted_on_error p C_MpegTsPacketSize); po_pkt := [] |}
+  | Err c => {| po_res := Err c; po_group := []; po_pkt := [] |}
   | Panic => {| po_res := Panic; po_group := []; po_pkt := [] |}
   end.
-
-Definition group_list (g : list (list Z)) : list (list (list Z)) :=
-  match g with [] => [] | _ => [g] end.
 
 (* ---------------- tables ---------------- *)
 
@@ -389,8 +364,8 @@ Record loop_out := mk_loop_out { lo_cc : wrappingCounter; lo_part : part }.
 Definition lo_cons (n : Z) (g : list (list Z)) (p : list Packet) (r : loop_out) : loop_out :=
   mk_loop_out (lo_cc r) (mk_part (pa_res (lo_part r)) (n + pa_n (lo_part r)) (g :: pa_groups (lo_part r)) (p ++ pa_pkts (lo_part r))).
 
-Definition lo_stop (cc : wrappingCounter) (r : res unit) (g : list (list Z)) : loop_out :=
-  mk_loop_out cc (mk_part r 0 (group_list g) []).
+Definition lo_stop (cc : wrappingCounter) (r : res unit) : loop_out :=
+  mk_loop_out cc (mk_part r 0 [] []).
 
 (* for payloadBytesWritten < len(d.PES.Data) { ... }: [left] is d.PES.Data[payloadBytesWritten:],
    [af] is Some d.AdaptationField while writeAf is still set, [oh] the optional header of d.PES.Header,
@@ -398,10 +373,10 @@ Definition lo_stop (cc : wrappingCounter) (r : res unit) (g : list (list Z)) : l
 Fixpoint wd_loop (fuel : nat) (pid : Z) (h : PESHeader) (cc : wrappingCounter)
     (af : option PacketAdaptationField) (payloadStart : bool) (left : list Z) : loop_out :=
   match left with
-  | [] => lo_stop cc (Ok tt) []
+  | [] => lo_stop cc (Ok tt)
   | _ :: _ =>
     match fuel with
-    | O => lo_stop cc Panic []
+    | O => lo_stop cc Panic
     | S k =>
       let pktLen := 1 + C_mpegTsPacketHeaderSize +
                     match af with Some a => 1 + calcPacketAdaptationFieldLength a | None => 0 end in
@@ -415,14 +390,14 @@ Fixpoint wd_loop (fuel : nat) (pid : Z) (h : PESHeader) (cc : wrappingCounter)
         let o := emit_packet pkt in
         match po_res o with
         | Ok n => lo_cons n (po_group o) (po_pkt o) (wd_loop k pid h cc None payloadStart left)
-        | Err c => lo_stop cc (Err c) (po_group o)
-        | Panic => lo_stop cc Panic []
+        | Err c => lo_stop cc (Err c)
+        | Panic => lo_stop cc Panic
         end
       else
         let cc' := wrappingCounter_inc_st cc in
         match write_pes_data h left payloadStart bytesAvailable with
-        | Err c => lo_stop cc' (Err c) []
-        | Panic => lo_stop cc' Panic []
+        | Err c => lo_stop cc' (Err c)
+        | Panic => lo_stop cc' Panic
         | Ok (items, ntot, npayload) =>
             let rest := bytesAvailable - ntot in
             let pkt := {| Packet_AdaptationField := if rest >? 0 then Some (stuffed af rest) else af;
@@ -432,8 +407,8 @@ Fixpoint wd_loop (fuel : nat) (pid : Z) (h : PESHeader) (cc : wrappingCounter)
             match po_res o with
             | Ok n => lo_cons n (po_group o) (po_pkt o)
                         (wd_loop k pid h cc' None false (skipn (Z.to_nat npayload) left))
-            | Err c => lo_stop cc' (Err c) (po_group o)
-            | Panic => lo_stop cc' Panic []
+            | Err c => lo_stop cc' (Err c)
+            | Panic => lo_stop cc' Panic
             end
         end
     end
@@ -478,7 +453,7 @@ Definition write_packet_op (p : Packet) : part :=
   let o := emit_packet p in
   match po_res o with
   | Ok n => mk_part (Ok tt) n [po_group o] (po_pkt o)
-  | Err c => mk_part (Err c) 0 (group_list (po_group o)) []
+  | Err c => mk_part (Err c) 0 [] []
   | Panic => mk_part Panic 0 [] []
   end.
 
